@@ -70,7 +70,30 @@ P = {
    note="Trusted: monotonic clock; only lower bounds are judged, so machine load cannot cause a false alarm. Only the band dl-t1 < d <= dl-t0 (the duration of the call itself) is left unjudged."),
 }
 
+# Sentences appended to the texts above (what rounds 5 and 6 of the seeded campaign added).
+EXTRA = {
+ "C01": "The thorough tier repeats the run as a 32-bit (GOARCH=386) binary.",
+ "C03": "Trees of 7 and 8 levels (600000 to 4.2 million keys) with insertions in the interior, judged by a walk and a lookup of every key after each phase.",
+ "C04": "Element types of 64 KiB to 4 MiB on buffers of 1-4 slots (byte-size thresholds of the growth policy).",
+ "C07": "Every probe source returns changing non-zero garbage alongside the end or an error; reducers documented to consume are held to the source-position oracle at every arity.",
+ "C08": "Faults exactly at inner-stream boundaries of Join/Flatten/FlattenSlices with non-idempotent library streams among the inputs; sources whose Close blocks on a gate (E must arrive while it is blocked).",
+ "C09": "stream.WithPeek driven directly with every Peek/Next pattern past the End.",
+ "C10": "Close error values that wrap stream.End; a Next parked while another goroutine closes the receiver must return after the sender's Close.",
+ "C11": "Overdue batches visited by consumers with dead or expiring contexts, then Close (must return); later batches of one stream must not be held back (5-of-5 repetition rule, the only wall-clock upper bound).",
+ "C12": "Inputs parked on child contexts while another input fails (exact identity of the reported error); inputs whose Close blocks; the library's own streams (Empty ...) as inputs; shared input channels for chans.Merge.",
+ "C13": "GOMAXPROCS toggled by another goroutine while the calls run; complete success must return nil; context error identity when a deadline has passed but the context was cancelled; also run as a 32-bit binary (alignment of 64-bit atomics).",
+ "C14": "64000 tiny MapStream runs at parallelism 1 with busy sources; bufferSize near MaxInt; GOMAXPROCS flipped during a pipeline's life.",
+ "C15": "Calls that panic (out-of-range index, pop on empty) between two Next calls must not disturb the iteration.",
+ "C16": "Waits entered around the deadline of their context.",
+ "C17": "GOMAXPROCS lowered during a group's life; thorough tier: exactly 2^32 trigger calls during one run, and a slow-scale group with seconds-long idle periods and intervals.",
+ "C18": "Map values whose == is not identity (signed zeros, NaN) compared bit-exactly; three-party sweeps for Future and Lazy; also run as a 32-bit binary.",
+ "C19": "xerrors on error trees against a reference wrapper; kept results re-read after later calls (pooled buffers); parts of one result must not alias each other.",
+ "C20": "Refused (panicking) Reset calls open no regime; a second Stop must not panic.",
+}
+
 def main():
+    for pid, extra in EXTRA.items():
+        P[pid]["text"] += " " + extra
     built = BUILT
     if built is None:
         built = set()
